@@ -103,8 +103,8 @@ Fixpoint tasks_of (o : opts) (t : td) (p : path) {struct t} : list task :=
       TWrite p (Ok [(FMeta, CJson (JObj (lazy_meta sd (List.length ms))))]) []
       :: (fix go (ms : list td) (i : nat) : list task :=
             match ms with [] => [] | m :: r => tasks_of o m (p ++ [string_of_nat i]) ++ go r (S i) end) ms 0
-  | TCls c inner =>
-      TWrite p (Ok [(FMeta, CJson (JObj [("_type", JStr c)]))]) [] :: tasks_of o inner (p ++ ["_tensordict"])
+  | TCls c nt inner =>
+      TWrite p (tc_files c nt []) (tc_removes nt) :: tasks_of o inner (p ++ ["_tensordict"])
   | NData bs pl => [TWrite p (ndata_files bs pl []) (if is_json_serializable pl then [FOther] else [])]
   | NStack _ => [TWrite p (nstack_files (stack_ndim t) (tolist t) []) []]
   end.
@@ -123,7 +123,7 @@ Fixpoint skeleton (inplace : bool) (t : td) (p : path) (s : state) {struct t} : 
   | Lazy sd ms =>
       (fix go (ms : list td) (i : nat) (s : state) : state :=
          match ms with [] => s | m :: r => go r (S i) (skeleton inplace m (p ++ [string_of_nat i]) s) end) ms 0 s
-  | TCls c inner => skeleton inplace inner (p ++ ["_tensordict"]) {| dest := dest s; fs := fs s; dirs := mkdirs p (dirs s) |}
+  | TCls c _ inner => skeleton inplace inner (p ++ ["_tensordict"]) {| dest := dest s; fs := fs s; dirs := mkdirs p (dirs s) |}
   | NData _ _ => {| dest := dest s; fs := fs s; dirs := mkdirs p (dirs s) |}
   | NStack _ => s
   end.
@@ -135,7 +135,7 @@ Fixpoint has_reserved (t : td) : bool :=
   | Node _ ents => (fix any (es : list (string * td)) : bool :=
                       match es with [] => false | (k, x) :: r => reserved k || has_reserved x || any r end) ents
   | Lazy _ ms => (fix any (l : list td) : bool := match l with [] => false | x :: r => has_reserved x || any r end) ms
-  | TCls _ inner => has_reserved inner
+  | TCls _ _ inner => has_reserved inner
   | _ => false
   end.
 
@@ -217,7 +217,7 @@ Fixpoint keys_distinct (t : td) : bool :=
       nodupb (map fst ents)
       && (fix all (es : list (string * td)) : bool := match es with [] => true | (_, x) :: r => keys_distinct x && all r end) ents
   | Lazy _ ms => (fix all (l : list td) : bool := match l with [] => true | x :: r => keys_distinct x && all r end) ms
-  | TCls _ inner => keys_distinct inner
+  | TCls _ _ inner => keys_distinct inner
   | _ => true
   end.
 
